@@ -294,6 +294,21 @@ func runC03(c *fw.Ctx) {
 			t := us[r.Intn(len(us))]
 			before := snapshotOthers(t)
 			nops := 1 + r.Intn(3)
+			if len(t.model) > 0 && len(t.model) <= 4 && r.Intn(25) == 0 {
+				// the child deletes every path it sees: its view is the empty trie (merged later, the parent is empty too and
+				// must still take inserts)
+				for _, p := range lab.SortedKeys(t.model) {
+					c.Tracef("%s del %q", t.name, p)
+					if _, err := t.t.Delete(util.Path(p)); err != nil {
+						fail("%s: Delete(%q) of a path visible to the child failed: %v", t.name, p, err)
+						return
+					}
+					delete(t.model, p)
+				}
+				t.hasWrites = true
+				nops = 1
+				c.Count("children_that_emptied_their_view", 1)
+			}
 			for k := 0; k < nops; k++ {
 				p := g.Pick(lab.SortedKeys(t.model))
 				if r.Intn(3) == 0 {
@@ -567,7 +582,7 @@ func init() {
 			return 40000
 		},
 		Run:    runC03,
-		Floors: map[string]int64{"collector_vs_reachability_checks": 100000, "absent_deletes_leave_own_tuple_unchanged": 20000, "blocks": 20000, "merges": 20000, "discards": 10000, "stale_merges": 2000, "tuple_comparisons": 100000, "child_ops": 100000, "blocks_with_grandchildren": 2000, "merges_via_MergeChanges": 5000, "blocks_saved_and_reread": 15000, "earlier_values_reinserted": 20000},
+		Floors: map[string]int64{"collector_vs_reachability_checks": 100000, "absent_deletes_leave_own_tuple_unchanged": 20000, "children_that_emptied_their_view": 800, "blocks": 20000, "merges": 20000, "discards": 10000, "stale_merges": 2000, "tuple_comparisons": 100000, "child_ops": 100000, "blocks_with_grandchildren": 2000, "merges_via_MergeChanges": 5000, "blocks_saved_and_reread": 15000, "earlier_values_reinserted": 20000},
 		Assumptions: []string{
 			"after a parent's root moves (successful merge of a sibling or direct write), the remaining children are stale: only the rejection of their merge and the parent's unchangedness are checked, not their views",
 			"a stale child whose merge would change the parent must be rejected with an error (accepting it silently drops a published sibling)",
